@@ -11,6 +11,8 @@ pub mod dtinv;
 pub mod search;
 pub mod tzstr;
 pub mod tzif;
+pub mod alloccount;
+pub mod fuzz_entry;
 pub mod run;
 pub mod props;
 pub mod known;
